@@ -13,6 +13,20 @@ package main
 // Coq model over the abstracted history and answers with the carried fresh line.
 //
 // All probes run through the single call site in c08call so that captured stacks are identical.
+//
+// ACTIVE SINKS.  The property quantifies over activity CONCURRENT with the observed call, and the one
+// place where foreign code runs in the middle of a zap operation while zap still holds pooled objects
+// is the sink's Write (and user marshalers / hooks).  Every probe therefore takes an "act" parameter
+// that makes all its sinks (and, for one probe, a marshaler and a hook) do zap work on OTHER loggers
+// before / while they consume the payload: log through a second JSON core, a console core with a With
+// context, a Logger with caller + stack capture and a tee; hold a buffer obtained through the Encoder
+// API during the copy; block on a channel while another goroutine logs; copy in chunks and yield the
+// processor (runtime.Gosched) while companion goroutines keep encoding (under GOMAXPROCS(1) sync.Pool
+// hands the companion exactly the object the observed call released last).  The sinks never retain
+// the slice beyond the call.  act = 0 is the plain sink; the fresh-state bytes are always taken with
+// act = 0, so the oracle (equality with the fresh bytes) also says: the bytes a sink reads during its
+// Write are the entry's bytes whatever else happens meanwhile - i.e. nothing zap has already returned
+// to a pool is still being read.
 
 import (
 	"bytes"
@@ -36,22 +50,200 @@ type c08Probe struct {
 	label string
 	sx    SX // kind 0: the encoder case; kind 1: label
 	abs   SX // abstraction for the pooled model
-	run   func() []byte
+	run   func(act int) []byte
 }
 
 // ---------- building blocks ----------
+// no operation of this harness logs more than a few hundred KB in one entry; a pool that hands out
+// unreset buffers makes payloads grow geometrically along With chains
+const c08MaxPayload = 1 << 25
+
 type c08Sink struct {
 	bytes.Buffer
 	fail bool
+	act  int // what Write does besides copying the payload (c08Nested); 0 = nothing
 }
 
 func (s *c08Sink) Write(p []byte) (int, error) {
 	if s.fail {
 		return 0, errors.New("sink failed")
 	}
-	return s.Buffer.Write(p)
+	if len(p) > c08MaxPayload {
+		panic(fmt.Sprintf("runaway payload: a sink was handed %d bytes", len(p)))
+	}
+	switch s.act {
+	case 0:
+		return s.Buffer.Write(p)
+	case c08ActBlocked, c08ActYield:
+		// a sink whose Write takes time (lock, channel, syscall): a few bytes of the payload are
+		// consumed before, the rest after other goroutines ran
+		k1 := len(p)
+		if k1 > 8 {
+			k1 = 8
+		}
+		k2 := k1 + (len(p)-k1)/2
+		s.Buffer.Write(p[:k1])
+		c08Nested(s.act, len(p))()
+		s.Buffer.Write(p[k1:k2])
+		c08Nested(s.act, len(p))()
+		s.Buffer.Write(p[k2:])
+		return len(p), nil
+	default:
+		// a sink that reports through its own diagnostics logger (or bridges into another logger)
+		// before it consumes the payload
+		after := c08Nested(s.act, len(p))
+		n, err := s.Buffer.Write(p)
+		after()
+		return n, err
+	}
 }
 func (*c08Sink) Sync() error { return nil }
+
+// ---------- zap activity on other loggers, performed from inside a sink / marshaler / hook ----------
+const (
+	c08ActJSON    = 1 // log through a second JSON core (reflected field: a second pooled buffer)
+	c08ActConsole = 2 // console core with a With context, error group
+	c08ActLogger  = 3 // Logger with caller + stack capture, tee, reflected field
+	c08ActHold    = 4 // Encoder API: Clone, AddReflected, EncodeEntry; the buffer is held during the copy
+	c08ActBlocked = 5 // block on a channel while a second goroutine logs through other cores
+	c08ActYield   = 6 // runtime.Gosched while companion goroutines (started by c08call) keep logging
+	c08NActs      = 7
+)
+
+var c08ActNames = [c08NActs]string{"plain", "sink-logs-json", "sink-logs-console", "sink-logs-logger", "sink-holds-encoder", "sink-blocked", "sink-yields"}
+
+// The audit entries are at least as long as the payload the sink is holding (n), and are written by
+// many small appends (a string full of escapes): a buffer wrongly shared with them is overwritten in
+// place over the whole length of the payload, not only until its first reallocation.
+func c08AuditMsg(n int) string {
+	if n > 1<<14 { // the probes' payloads are shorter; keeps a run against a broken pool bounded
+		n = 1 << 14
+	}
+	return "sink received payload, forwarding " + strings.Repeat(".\"", 40+n/2)
+}
+
+type c08Null struct{}
+
+func (c08Null) Write(p []byte) (int, error) { return len(p), nil }
+func (c08Null) Sync() error                 { return nil }
+
+// The diagnostics loggers of the active sinks exist before the sinks are written to (a constructor
+// takes a buffer from the pool too, but only to keep it as its empty context: built inside Write it
+// would shield whatever the observed call released last from the writes that follow).  They are
+// shared by all sinks and companions, hence sinks without state.
+var (
+	c08AuditOnce sync.Once
+	c08AuditJSON zapcore.Core
+	c08AuditCons zapcore.Core
+	c08AuditLog  *zap.Logger
+	c08AuditEnc  zapcore.Encoder
+)
+
+func c08AuditInit() {
+	c08AuditOnce.Do(func() {
+		c08AuditJSON = zapcore.NewCore(zapcore.NewJSONEncoder(c08Cfg()), c08Null{}, zapcore.DebugLevel)
+		c08AuditCons = zapcore.NewCore(zapcore.NewConsoleEncoder(c08Cfg()), c08Null{}, zapcore.DebugLevel).With(c08Fields(1, 0, 0, 1, 0, 0, 0))
+		c08AuditLog = zap.New(zapcore.NewTee(c08AuditJSON, c08AuditCons), zap.WithClock(c08Clock{}), zap.ErrorOutput(c08Null{}),
+			zap.AddCaller(), zap.AddStacktrace(zapcore.DebugLevel)).Named("audit")
+		c08AuditEnc = zapcore.NewJSONEncoder(c08Cfg())
+	})
+}
+
+func c08Audit(which int, n int) {
+	c08AuditInit()
+	switch which {
+	case c08ActJSON:
+		// through the sink's long-lived diagnostics core, then through a core made on the spot
+		_ = c08AuditJSON.Write(zapcore.Entry{Level: zapcore.DebugLevel, Message: c08AuditMsg(n), LoggerName: "audit"}, c08Fields(2, 1, 0, 0, 0, 0, 0))
+		core := zapcore.NewCore(zapcore.NewJSONEncoder(c08Cfg()), c08Null{}, zapcore.DebugLevel)
+		_ = core.Write(zapcore.Entry{Level: zapcore.DebugLevel, Message: "shipped"}, c08Fields(1, 0, 0, 0, 0, 0, 0))
+	case c08ActConsole:
+		_ = c08AuditCons.With(c08Fields(1, 0, 0, 1, 0, 0, 0)).Write(zapcore.Entry{Message: "shipped"}, nil)
+		_ = c08AuditCons.Write(zapcore.Entry{Level: zapcore.WarnLevel, Message: "audit", Caller: zapcore.EntryCaller{Defined: true, File: "/audit/sink.go", Line: 9}},
+			append(c08Fields(1, 1, 0, 0, 2, 0, 0), zap.String("payload", c08AuditMsg(n))))
+	default:
+		c08AuditLog.Info(c08AuditMsg(n), zap.Reflect("r", []int{1, 2, 3}), zap.Int("n", 1))
+	}
+}
+
+// c08Nested does the activity of kind act on the calling goroutine (resp. lets other goroutines do it)
+// and returns what has to be done once the caller has consumed its payload.
+func c08Nested(act int, n int) (after func()) {
+	after = func() {}
+	switch act {
+	case c08ActJSON, c08ActConsole, c08ActLogger:
+		c08Audit(act, n)
+	case c08ActHold:
+		c08AuditInit()
+		cl := c08AuditEnc.Clone()
+		cl.OpenNamespace("held")
+		_ = cl.AddReflected("r", map[string]int{"q": 1})
+		buf, err := cl.EncodeEntry(zapcore.Entry{Message: c08AuditMsg(n)}, c08Fields(1, 1, 0, 0, 0, 0, 0))
+		if err == nil {
+			want := buf.String()
+			after = func() {
+				if buf.String() != want {
+					panic("a buffer handed out by EncodeEntry changed while its owner held it")
+				}
+				buf.Free()
+			}
+		}
+	case c08ActBlocked:
+		done := make(chan struct{})
+		var pe interface{}
+		go func() {
+			defer close(done)
+			defer func() { pe = recover() }()
+			c08Audit(c08ActConsole, n)
+			c08Audit(c08ActJSON, n)
+		}()
+		<-done
+		if pe != nil {
+			panic(pe)
+		}
+	case c08ActYield:
+		runtime.Gosched()
+	}
+	return after
+}
+
+// what the activity of one sink write looks like to the pooled model (history items)
+func c08ActAbs(act int) []SX {
+	j := c08Abs(0, 2, 1, 0, 0, 0, 0)
+	w, c := c08Abs(2, 1, 0, 0, 1, 0, 1), c08Abs(1, 1, 1, 0, 0, 2, 0)
+	l := c08Abs(3, 1, 1, 0, 0, 0, 6+8*4)
+	switch act {
+	case c08ActJSON:
+		return []SX{j}
+	case c08ActConsole:
+		return []SX{w, c}
+	case c08ActLogger:
+		return []SX{l}
+	case c08ActHold:
+		return []SX{c08Abs(2, 1, 1, 0, 1, 0, 0)}
+	case c08ActBlocked:
+		return []SX{j, w, c}
+	case c08ActYield:
+		return []SX{j, w, c, l}
+	}
+	return nil
+}
+
+// a marshaler that logs through another logger half-way through its own fields
+type c08ActObj struct {
+	act int
+	fs  []zapcore.Field
+}
+
+func (o c08ActObj) MarshalLogObject(enc zapcore.ObjectEncoder) error {
+	for i, f := range o.fs {
+		if i == len(o.fs)/2 {
+			c08Nested(o.act, 0)()
+		}
+		f.AddTo(enc)
+	}
+	return nil
+}
 
 type c08Clock struct{}
 
@@ -130,20 +322,88 @@ func c08Fields(a, b, c, d, e, f int, big int) []zapcore.Field {
 func c08Abs(k, a, b, c, d, e, f int) SX { return L(I(k), I(a), I(b), I(c), I(d), I(e), I(f)) }
 
 // Every probe runs on a goroutine of its own, started here: the captured stack is then the same
-// (probe closure, this function literal) whoever asked for the observation.
-func c08call(p *c08Probe) (out []byte, panicked string) {
+// (probe closure, this function literal) whoever asked for the observation.  With act = yield two
+// companion goroutines log through loggers of their own for as long as the probe runs.
+func c08call(p *c08Probe, act int) (out []byte, panicked string) {
+	var mu sync.Mutex
+	var wg sync.WaitGroup
+	stop := make(chan struct{})
+	if act != 0 {
+		c08AuditInit()
+	}
+	if act == c08ActYield {
+		for g := 0; g < 2; g++ {
+			wg.Add(1)
+			go func(g int) {
+				defer wg.Done()
+				defer func() {
+					if e := recover(); e != nil {
+						mu.Lock()
+						panicked = "companion goroutine: " + fmt.Sprint(e)
+						mu.Unlock()
+					}
+				}()
+				for i := g; ; i++ {
+					select {
+					case <-stop:
+						return
+					default:
+					}
+					c08Audit(1+i%3, [3]int{2000, 300, 16000}[(i/3)%3])
+					runtime.Gosched()
+				}
+			}(g)
+		}
+	}
 	done := make(chan struct{})
 	go func() {
 		defer close(done)
 		defer func() {
 			if e := recover(); e != nil {
+				mu.Lock()
 				panicked = fmt.Sprint(e)
+				mu.Unlock()
 			}
 		}()
-		out = p.run()
+		out = p.run(act)
 	}()
 	<-done
+	close(stop)
+	wg.Wait()
 	return
+}
+
+// the generated encoder case behind a real ioCore (as encCase.runJSON), with a c08Sink
+func c08RunCase(ec *encCase, console bool, act int) ([]byte, string, bool) {
+	return catchPanic(func() []byte {
+		var enc zapcore.Encoder
+		if console {
+			enc = zapcore.NewConsoleEncoder(ec.cfg.real())
+		} else {
+			enc = zapcore.NewJSONEncoder(ec.cfg.real())
+		}
+		sink := &c08Sink{act: act}
+		var core zapcore.Core = zapcore.NewCore(enc, sink, zapcore.Level(-128))
+		for _, fs := range ec.ctxs {
+			core = core.With(fs)
+		}
+		if ec.preuse > 0 {
+			pre := zapcore.Entry{Level: ec.ent.Level, Time: ec.ent.Time, Message: "pre-use"}
+			var pf []zapcore.Field
+			if ec.preuse == 2 {
+				pf = ec.fields
+			}
+			_ = core.Write(pre, pf)
+			if ec.preuse == 3 {
+				_ = core.With([]zapcore.Field{{Key: "child", Type: zapcore.Int64Type, Integer: 1}}).Write(pre, nil)
+			}
+			sink.Reset()
+		}
+		if err := core.Write(ec.ent, ec.fields); err != nil {
+			panic("core.Write error: " + err.Error())
+		}
+		return append([]byte(nil), sink.Bytes()...)
+	})
 }
 
 func c08Deep(n int, f func()) {
@@ -154,8 +414,8 @@ func c08Deep(n int, f func()) {
 	c08Deep(n-1, f)
 }
 
-func c08Logger(console bool, tee bool, failing bool, opts ...zap.Option) (*zap.Logger, *c08Sink, *c08Sink, *c08Sink) {
-	s1, s2, es := &c08Sink{}, &c08Sink{fail: failing}, &c08Sink{}
+func c08Logger(act int, console bool, tee bool, failing bool, opts ...zap.Option) (*zap.Logger, *c08Sink, *c08Sink, *c08Sink) {
+	s1, s2, es := &c08Sink{act: act}, &c08Sink{fail: failing, act: act}, &c08Sink{act: act}
 	var enc zapcore.Encoder
 	if console {
 		enc = zapcore.NewConsoleEncoder(c08Cfg())
@@ -182,7 +442,7 @@ func c08Join(ss ...*c08Sink) []byte {
 
 func c08Probes(seed uint64) []*c08Probe {
 	var ps []*c08Probe
-	add := func(kind int, label string, sx SX, abs SX, run func() []byte) {
+	add := func(kind int, label string, sx SX, abs SX, run func(act int) []byte) {
 		if sx == nil {
 			sx = Str(label)
 		}
@@ -190,25 +450,29 @@ func c08Probes(seed uint64) []*c08Probe {
 	}
 	// encoder cases through ioCore.Write (With chains, every field kind, nested marshalers, failures)
 	r := NewRNG(seed*7919 + 17)
-	for n := 0; n < 12; {
+	for n, rejected := 0, 0; n < 12; {
 		ec := genEncCase(r.Fork(), n%4 == 3)
-		if _, _, panicked := ec.runJSON(false); panicked {
+		// cases on which the encoder panics are C01's subject; on a tree where every case panics
+		// the probes are kept and the panics are reported by the fresh-state observation
+		if _, _, panicked := c08RunCase(ec, false, 0); panicked && rejected < 40 {
+			rejected++
 			continue
 		}
-		if _, _, panicked := ec.runJSON(true); panicked {
+		if _, _, panicked := c08RunCase(ec, true, 0); panicked && rejected < 40 {
+			rejected++
 			continue
 		}
 		if n < 8 {
-			add(0, "json-case", ec.sx, c08Abs(0, len(ec.fields), 1, 0, 1, 1, 1), func() []byte {
-				out, pm, p := ec.runJSON(false)
+			add(0, "json-case", ec.sx, c08Abs(0, len(ec.fields), 1, 0, 1, 1, 1), func(act int) []byte {
+				out, pm, p := c08RunCase(ec, false, act)
 				if p {
 					panic(pm)
 				}
 				return out
 			})
 		} else {
-			add(1, "console-case", nil, c08Abs(1, len(ec.fields), 1, 0, 1, 1, 1), func() []byte {
-				out, pm, p := ec.runJSON(true)
+			add(1, "console-case", nil, c08Abs(1, len(ec.fields), 1, 0, 1, 1, 1), func(act int) []byte {
+				out, pm, p := c08RunCase(ec, true, act)
 				if p {
 					panic(pm)
 				}
@@ -218,53 +482,53 @@ func c08Probes(seed uint64) []*c08Probe {
 		n++
 	}
 	// Logger probes
-	add(1, "logger-json-caller-stack", nil, c08Abs(3, 2, 1, 0, 0, 0, 6+8*3), func() []byte {
-		lg, s1, s2, es := c08Logger(false, false, false, zap.AddCaller(), zap.AddStacktrace(zapcore.InfoLevel))
+	add(1, "logger-json-caller-stack", nil, c08Abs(3, 2, 1, 0, 0, 0, 6+8*3), func(act int) []byte {
+		lg, s1, s2, es := c08Logger(act, false, false, false, zap.AddCaller(), zap.AddStacktrace(zapcore.InfoLevel))
 		lg.Info("probe", c08Fields(2, 1, 0, 0, 0, 0, 0)...)
 		return c08Join(s1, s2, es)
 	})
-	add(1, "logger-console-caller-stack", nil, c08Abs(3, 2, 1, 1, 1, 2, 7+8*3), func() []byte {
-		lg, s1, s2, es := c08Logger(true, false, false, zap.AddCaller(), zap.AddStacktrace(zapcore.WarnLevel))
+	add(1, "logger-console-caller-stack", nil, c08Abs(3, 2, 1, 1, 1, 2, 7+8*3), func(act int) []byte {
+		lg, s1, s2, es := c08Logger(act, true, false, false, zap.AddCaller(), zap.AddStacktrace(zapcore.WarnLevel))
 		lg.Warn("probe", c08Fields(2, 1, 1, 1, 2, 1, 0)...)
 		lg.Info("second")
 		return c08Join(s1, s2, es)
 	})
-	add(1, "logger-with-named", nil, c08Abs(2, 1, 1, 0, 1, 0, 1), func() []byte {
-		lg, s1, s2, es := c08Logger(false, false, false)
+	add(1, "logger-with-named", nil, c08Abs(2, 1, 1, 0, 1, 0, 1), func(act int) []byte {
+		lg, s1, s2, es := c08Logger(act, false, false, false)
 		l2 := lg.With(zap.Int("a", 1), zap.Namespace("ns"), zap.Reflect("r", map[string]int{"x": 1})).Named("sub")
 		l2.Info("in namespace", zap.String("k", "v"))
 		l2.With(zap.Namespace("deeper")).Error("two", zap.Error(errors.New("boom")))
 		lg.Debug("root unaffected")
 		return c08Join(s1, s2, es)
 	})
-	add(1, "logger-tee-failing-sink", nil, c08Abs(3, 1, 0, 1, 0, 1, 1+2), func() []byte {
-		lg, s1, s2, es := c08Logger(false, true, true, zap.AddCaller())
+	add(1, "logger-tee-failing-sink", nil, c08Abs(3, 1, 0, 1, 0, 1, 1+2), func(act int) []byte {
+		lg, s1, s2, es := c08Logger(act, false, true, true, zap.AddCaller())
 		lg.Info("tee", c08Fields(1, 0, 1, 0, 1, 0, 0)...)
 		return bytes.ReplaceAll(c08Join(s1, s2, es), []byte("1700000000"), []byte("T"))
 	})
-	add(1, "logger-stack-field", nil, c08Abs(4, 0, 0, 0, 0, 0, 5), func() []byte {
-		lg, s1, s2, es := c08Logger(true, true, false)
+	add(1, "logger-stack-field", nil, c08Abs(4, 0, 0, 0, 0, 0, 5), func(act int) []byte {
+		lg, s1, s2, es := c08Logger(act, true, true, false)
 		lg.Info("with stack field", zap.Stack("st"), zap.StackSkip("st2", 1))
 		return c08Join(s1, s2, es)
 	})
-	add(1, "sugar-infow", nil, c08Abs(0, 3, 1, 0, 0, 0, 0), func() []byte {
-		lg, s1, s2, es := c08Logger(false, false, false, zap.AddCaller())
+	add(1, "sugar-infow", nil, c08Abs(0, 3, 1, 0, 0, 0, 0), func(act int) []byte {
+		lg, s1, s2, es := c08Logger(act, false, false, false, zap.AddCaller())
 		lg.Sugar().Infow("sugared", "a", 1, "b", []int{1, 2}, "c", errors.New("e"))
 		lg.Sugar().Infof("%d-%s", 7, "x")
 		return c08Join(s1, s2, es)
 	})
-	add(1, "logger-big-message", nil, c08Abs(0, 3, 0, 0, 0, 0, 0), func() []byte {
-		lg, s1, s2, es := c08Logger(false, true, false)
+	add(1, "logger-big-message", nil, c08Abs(0, 3, 0, 0, 0, 0, 0), func(act int) []byte {
+		lg, s1, s2, es := c08Logger(act, false, true, false)
 		lg.Info(strings.Repeat("m\n", 3000), c08Fields(3, 0, 0, 0, 0, 0, 700)...)
 		return c08Join(s1, s2, es)
 	})
-	add(1, "logger-deep-stack", nil, c08Abs(3, 0, 0, 0, 0, 0, 4+8*90), func() []byte {
-		lg, s1, s2, es := c08Logger(false, false, false, zap.AddStacktrace(zapcore.DebugLevel))
+	add(1, "logger-deep-stack", nil, c08Abs(3, 0, 0, 0, 0, 0, 4+8*90), func(act int) []byte {
+		lg, s1, s2, es := c08Logger(act, false, false, false, zap.AddStacktrace(zapcore.DebugLevel))
 		c08Deep(90, func() { lg.Debug("deep") })
 		return c08Join(s1, s2, es)
 	})
-	add(1, "dpanic-hook", nil, c08Abs(3, 1, 0, 0, 0, 0, 0), func() []byte {
-		lg, s1, s2, es := c08Logger(false, false, false, zap.Development())
+	add(1, "dpanic-hook", nil, c08Abs(3, 1, 0, 0, 0, 0, 0), func(act int) []byte {
+		lg, s1, s2, es := c08Logger(act, false, false, false, zap.Development())
 		func() {
 			defer func() { recover() }()
 			lg.DPanic("dp", zap.Int("x", 1))
@@ -272,25 +536,39 @@ func c08Probes(seed uint64) []*c08Probe {
 		lg.Info("after")
 		return c08Join(s1, s2, es)
 	})
-	add(1, "encoder-direct", nil, c08Abs(1, 2, 1, 0, 1, 0, 0), func() []byte {
+	add(1, "encoder-direct", nil, c08Abs(1, 2, 1, 0, 1, 0, 0), func(act int) []byte {
 		enc := zapcore.NewConsoleEncoder(c08Cfg())
 		enc.AddString("ctx", "v")
 		cl := enc.Clone()
 		cl.OpenNamespace("n")
 		_ = cl.AddReflected("r", []int{1})
+		// the caller owns the returned buffer until it frees it: whatever happens meanwhile
 		buf, _ := cl.EncodeEntry(zapcore.Entry{Level: zapcore.InfoLevel, Message: "direct", LoggerName: "n"}, c08Fields(2, 1, 0, 1, 0, 0, 0))
+		after := c08Nested(act, buf.Len())
 		out := append([]byte(nil), buf.Bytes()...)
+		after()
 		buf.Free()
 		buf2, _ := enc.EncodeEntry(zapcore.Entry{Level: zapcore.WarnLevel, Message: "orig"}, nil)
+		c08Nested(act, buf2.Len())()
 		out = append(out, buf2.Bytes()...)
 		buf2.Free()
 		return out
+	})
+	// foreign code that runs in the middle of a zap operation: a marshaler (in a With context and in
+	// the entry's fields) and a hook that log through other loggers; tee of a JSON and a console core
+	add(1, "logger-active-marshaler-hook", nil, c08Abs(3, 3, 1, 0, 1, 2, 2+8*2), func(act int) []byte {
+		lg, s1, s2, es := c08Logger(act, false, true, false, zap.AddCaller(),
+			zap.Hooks(func(zapcore.Entry) error { c08Nested(act, 0)(); return nil }))
+		l2 := lg.With(zap.Object("ctx", c08ActObj{act, c08Fields(2, 1, 0, 0, 0, 0, 0)}))
+		l2.Info("marshaler logs", zap.Object("o", c08ActObj{act, c08Fields(2, 1, 0, 1, 2, 0, 0)}), zap.String("tail", "t"))
+		lg.Warn("plain after", zap.Int("n", 2))
+		return c08Join(s1, s2, es)
 	})
 	return ps
 }
 
 // ---------- history operations ----------
-const c08NKinds = 14
+const c08NKinds = 15
 
 // executes one history operation; returns its abstraction and a class letter
 func c08HistOp(r *RNG, kind int) (desc SX, class string, unexpected string) {
@@ -342,13 +620,13 @@ func c08HistOp(r *RNG, kind int) (desc SX, class string, unexpected string) {
 			if fl&4 != 0 {
 				opts = append(opts, zap.AddStacktrace(zapcore.DebugLevel))
 			}
-			lg, _, _, _ := c08Logger(false, true, fl&1 != 0, opts...)
+			lg, _, _, _ := c08Logger(0, false, true, fl&1 != 0, opts...)
 			lg.Info("hist call", c08Fields(a, b, c, d, e, f, 0)...)
 		})
 		return c08Abs(3, a, b, c, d, e, fl+8*4), "l", unexpected
 	case 4: // zap.Stack
 		quiet(func() {
-			lg, _, _, _ := c08Logger(true, false, false)
+			lg, _, _, _ := c08Logger(0, true, false, false)
 			lg.Info("s", zap.Stack("stack"))
 		})
 		return c08Abs(4, 0, 0, 0, 0, 0, 5), "s", unexpected
@@ -363,13 +641,13 @@ func c08HistOp(r *RNG, kind int) (desc SX, class string, unexpected string) {
 	case 8: // big entries: buffers grow far beyond their initial capacity
 		n := 300 + r.Intn(3000)
 		quiet(func() {
-			lg, _, _, _ := c08Logger(r.Bool(), true, false)
+			lg, _, _, _ := c08Logger(0, r.Bool(), true, false)
 			lg.Info(strings.Repeat("big", n), c08Fields(2, 1, 0, 1, 0, 0, n)...)
 		})
 		return c08Abs(0, 2, 1, 0, 1, 0, 0), "b", unexpected
 	case 9: // a panicking marshaler: pooled objects of that call are never returned
 		quiet(func() {
-			lg, _, _, _ := c08Logger(r.Bool(), false, false, zap.AddCaller(), zap.AddStacktrace(zapcore.DebugLevel))
+			lg, _, _, _ := c08Logger(0, r.Bool(), false, false, zap.AddCaller(), zap.AddStacktrace(zapcore.DebugLevel))
 			func() {
 				defer func() {
 					if e := recover(); e != nil && fmt.Sprint(e) != "marshaler panic" {
@@ -383,7 +661,7 @@ func c08HistOp(r *RNG, kind int) (desc SX, class string, unexpected string) {
 	case 10: // deep stack: Stack.storage is replaced by a larger one
 		n := 70 + r.Intn(200)
 		quiet(func() {
-			lg, _, _, _ := c08Logger(false, false, false, zap.AddStacktrace(zapcore.DebugLevel))
+			lg, _, _, _ := c08Logger(0, false, false, false, zap.AddStacktrace(zapcore.DebugLevel))
 			c08Deep(n, func() { lg.Info("deep", zap.Stack("again")) })
 		})
 		return c08Abs(3, 0, 0, 0, 0, 0, 4+8*n), "d", unexpected
@@ -409,9 +687,9 @@ func c08HistOp(r *RNG, kind int) (desc SX, class string, unexpected string) {
 		return c08Abs(2, a, b, c, d, e, f), "e", unexpected
 	case 12: // checked entries that are never written; terminal hooks
 		quiet(func() {
-			lg, _, _, _ := c08Logger(false, false, false, zap.WithFatalHook(zapcore.WriteThenGoexit), zap.AddCaller())
+			lg, _, _, _ := c08Logger(0, false, false, false, zap.WithFatalHook(zapcore.WriteThenGoexit), zap.AddCaller())
 			_ = lg.Check(zapcore.InfoLevel, "never written")
-			l3, _, _, _ := c08Logger(true, true, true, zap.WithFatalHook(c08Hook{"returning fatal"}), zap.WithPanicHook(c08Hook{"returning panic"}))
+			l3, _, _, _ := c08Logger(0, true, true, true, zap.WithFatalHook(c08Hook{"returning fatal"}), zap.WithPanicHook(c08Hook{"returning panic"}))
 			l3.Fatal("returning fatal", zap.Int("a", 1))
 			l3.Panic("returning panic")
 			if ce := lg.Check(zapcore.WarnLevel, "written twice"); ce != nil {
@@ -438,6 +716,15 @@ func c08HistOp(r *RNG, kind int) (desc SX, class string, unexpected string) {
 			}()
 		})
 		return c08Abs(3, 1, 1, 0, 1, 0, 2+8*2), "k", unexpected
+	case 13: // loggers whose sinks are themselves active (log, hold buffers, block, yield inside Write)
+		act := 1 + r.Intn(c08NActs-1)
+		quiet(func() {
+			lg, _, _, _ := c08Logger(act, f%2 == 1, true, false, zap.AddCaller())
+			lg.Info("hist through active sinks", c08Fields(a, b, c, d, e, f, 0)...)
+			core := zapcore.NewCore(zapcore.NewConsoleEncoder(c08Cfg()), &c08Sink{act: act}, zapcore.DebugLevel)
+			_ = core.With(c08Fields(1, 0, 0, 1, 0, 0, 0)).Write(zapcore.Entry{Message: "h"}, c08Fields(a, b, 0, 0, e, 0, 0))
+		})
+		return c08Abs(3, a, b, c, d, e, 2+8*4), "a", unexpected
 	default: // a burst of concurrent logging on other loggers
 		var wg sync.WaitGroup
 		for g := 0; g < 4; g++ {
@@ -472,7 +759,7 @@ func c08(c *Ctx) {
 	// child mode: print the fresh bytes of one probe, as the first logging activity of the process
 	if k := os.Getenv("C08_CHILD"); k != "" {
 		id, _ := strconv.Atoi(k)
-		out, pm := c08call(probes[id])
+		out, pm := c08call(probes[id], 0)
 		if pm != "" {
 			out = []byte("PANIC " + pm)
 		}
@@ -505,17 +792,19 @@ func c08(c *Ctx) {
 	defer runtime.GOMAXPROCS(prev)
 
 	fresh := make([][]byte, len(probes))
-	emit := func(p *c08Probe, hist []SX, classes string, out []byte, class string) {
+	emit := func(p *c08Probe, hist []SX, classes string, out []byte, class string, act int) {
 		nt := "0"
-		if len(hist) > 0 && strings.Trim(classes, "g") != "" {
+		if (len(hist) > 0 && strings.Trim(classes, "g") != "") || act != 0 {
 			nt = "1"
 		}
+		// what the probe's sinks did on other loggers while the probe ran is part of the history
+		hist = append(append([]SX(nil), hist...), c08ActAbs(act)...)
 		// the pooled model is run over the last operations of the history only (its cost grows
 		// with the length; the real run saw the whole history)
 		if len(hist) > 40 {
 			hist = hist[len(hist)-40:]
 		}
-		in := L(I(p.kind), p.sx, B(fresh[p.id]), L(hist...), c08Adv(r, 12), p.abs)
+		in := L(I(p.kind), p.sx, B(fresh[p.id]), L(hist...), c08Adv(r, 12), p.abs, L(Str(c08ActNames[act]), I(act)))
 		c.Emit(in, L(B(out)), map[string]string{"nt": nt, "class": class + ":" + p.label})
 	}
 	// a run that already shows many differences is cut short (a broken pool can make buffers
@@ -530,26 +819,31 @@ func c08(c *Ctx) {
 			info("aborted_after_mismatches", strconv.Itoa(mismatches))
 		}
 	}()
-	observe := func(p *c08Probe, hist []SX, classes string, class string) {
+	observe := func(p *c08Probe, hist []SX, classes string, class string, act int) {
 		if mismatches > 150 {
 			panic(c08Abort{})
 		}
-		out, pm := c08call(p)
+		out, pm := c08call(p, act)
 		if !bytes.Equal(out, fresh[p.id]) {
 			mismatches++
+			// runaway output (buffers that are never reset): keep the case, and the run, small
+			if lim := 2*len(fresh[p.id]) + 1<<16; len(out) > lim {
+				out = append(out[:lim:lim], []byte(fmt.Sprintf("...[%d bytes in all]", len(out)))...)
+				mismatches += 9
+			}
 		}
 		if pm != "" {
-			viol("probe "+p.label+" panicked after history ["+classes+"]: "+pm, L(I(p.id), L(hist...)))
+			viol("probe "+p.label+" ("+c08ActNames[act]+") panicked after history ["+classes+"]: "+pm, L(I(p.id), I(act), L(hist...)))
 			out = []byte("PANIC " + pm)
 		}
-		emit(p, hist, classes, out, class)
+		emit(p, hist, classes, out, class, act)
 	}
 
 	// fresh observations: pools emptied by two collections before each probe
 	for _, p := range probes {
 		runtime.GC()
 		runtime.GC()
-		out, pm := c08call(p)
+		out, pm := c08call(p, 0)
 		if pm != "" {
 			viol("probe "+p.label+" panicked in a fresh state: "+pm, L(I(p.id)))
 			out = []byte("PANIC " + pm)
@@ -575,7 +869,7 @@ func c08(c *Ctx) {
 			fmt.Sscanf(string(res[idx+9:]), "%x", &got)
 			nchild++
 			// history = "everything the parent did before": emitted as a case of its own
-			emit(p, []SX{c08Abs(5, 0, 0, 0, 0, 0, 0)}, "g", got, "child")
+			emit(p, []SX{c08Abs(5, 0, 0, 0, 0, 0, 0)}, "g", got, "child", 0)
 		}
 	}
 	info("child_probes", strconv.Itoa(nchild))
@@ -598,14 +892,40 @@ func c08(c *Ctx) {
 					viol(u, L(I(k), L(hist...)))
 				}
 			}
-			observe(p, hist, cls, "pair")
+			observe(p, hist, cls, "pair", 0)
 		}
 	}
 	// probe after probe (each probe is also a history for every other one)
 	for _, p := range probes {
 		for _, q := range probes {
-			c08call(p)
-			observe(q, []SX{p.abs}, "q", "probe-pair")
+			c08call(p, 0)
+			observe(q, []SX{p.abs}, "q", "probe-pair", 0)
+		}
+	}
+	// active sinks: every kind of activity inside Write x every probe, (i) on empty pools (whatever
+	// the probe released last is what the activity is handed), (ii) on pools filled by a few history
+	// operations, (iii) thorough tier: with four Ps
+	for act := 1; act < c08NActs; act++ {
+		for _, p := range probes {
+			runtime.GC()
+			runtime.GC()
+			observe(p, nil, "", "active-"+c08ActNames[act], act)
+			var hist []SX
+			cls := ""
+			for rep := 0; rep < 3; rep++ {
+				h, cl, u := c08HistOp(r, r.Intn(5))
+				hist = append(hist, h)
+				cls += cl
+				if u != "" {
+					viol(u, L(L(hist...)))
+				}
+			}
+			observe(p, hist, cls, "active-"+c08ActNames[act], act)
+			if c.Thorough {
+				runtime.GOMAXPROCS(4)
+				observe(p, hist, cls, "active4-"+c08ActNames[act], act)
+				runtime.GOMAXPROCS(1)
+			}
 		}
 	}
 
@@ -647,7 +967,7 @@ func c08(c *Ctx) {
 						case <-stop:
 							return
 						default:
-							if _, _, u := c08HistOp(rr, rr.Intn(13)); u != "" {
+							if _, _, u := c08HistOp(rr, rr.Intn(14)); u != "" {
 								viol("background: "+u, L())
 							}
 						}
@@ -673,7 +993,12 @@ func c08(c *Ctx) {
 					if bg {
 						cl2 = "concurrent"
 					}
-					observe(p, hist, cls, cl2)
+					act := 0
+					if r.Chance(50) {
+						act = 1 + r.Intn(c08NActs-1)
+						cl2 += "-active"
+					}
+					observe(p, hist, cls, cl2, act)
 				}
 			}
 		}
